@@ -388,6 +388,8 @@ def source_of(text, d):
     kw = {}
     if d.get("bom"):
         b = BOMS[enc] + b
+    elif d.get("via") == "transport":
+        kw["transport_encoding"] = enc
     else:
         kw["override_encoding"] = enc
     if k == "bytes":
@@ -664,6 +666,91 @@ def oracle(ctx):
                 oracle_one(ctx, text, d, "dom", src)
 
 
+MULTIBYTE = ("big5", "euc-jp", "euc-kr", "gb18030", "gbk", "iso-2022-jp", "shift_jis")
+UNICODE_ENCS = ("utf-8", "utf-16le", "utf-16be")
+# decoded as latin-1 through webencodings' table-less StreamReader: recorded under C06 (decode:*), not repeated here
+NOT_HERE = ("replacement", "x-user-defined")
+_REPERTOIRE = {}
+
+
+def repertoire(name):
+    """(ordinary, special) characters of encoding `name` as webencodings implements it: every character that
+    round-trips through webencodings' codec; `special` are those Python's own codec registry would NOT handle the same
+    way under the canonical name (webencodings deliberately maps shift_jis -> cp932, big5 -> big5hkscs, euc-kr ->
+    cp949, and knows names the registry does not) - the characters that tell the intended codec from a look-alike"""
+    if name in _REPERTOIRE:
+        return _REPERTOIRE[name]
+    import codecs
+    import webencodings
+    ci = webencodings.lookup(name).codec_info
+    try:
+        py = codecs.lookup(name)
+    except LookupError:
+        py = None
+    if name in UNICODE_ENCS:
+        cands = [chr(c) for c in list(range(0x80, 0x3000, 37)) + list(range(0x3000, 0xD800, 211)) +
+                 list(range(0xE000, 0xFFFE, 97)) + [0x10000, 0x1F600, 0x2FA1D, 0x10FFFD]]
+    elif name in MULTIBYTE:
+        cands = [chr(c) for c in range(0x80, 0x10000) if not 0xD800 <= c <= 0xDFFF]
+    else:
+        cands = []
+        for b in range(0x80, 0x100):
+            try:
+                ch = ci.decode(bytes([b]))[0]
+            except UnicodeError:
+                continue
+            if len(ch) == 1:
+                cands.append(ch)
+    ordinary, special = [], []
+    for ch in cands:
+        try:
+            b = ci.encode(ch)[0]
+            if ci.decode(b)[0] != ch:
+                continue
+        except UnicodeError:
+            continue
+        same = False
+        if py is not None:
+            try:
+                same = py.encode(ch)[0] == b and py.decode(b)[0] == ch
+            except UnicodeError:
+                same = False
+        (ordinary if same else special).append(ch)
+    _REPERTOIRE[name] = (ordinary, special)
+    return _REPERTOIRE[name]
+
+
+def oracle_encodings(ctx):
+    """every encoding of the Encoding standard's table (all canonical names webencodings knows), with text that
+    exercises the codec webencodings intends, delivered as bytes / BytesIO / non-seekable stream under a certain
+    encoding (override_encoding or transport_encoding), compared with the str parse (tree + errors)"""
+    from webencodings.labels import LABELS
+    thorough = ctx.tier == "thorough"
+    for name in sorted(set(LABELS.values())):
+        if name in NOT_HERE:
+            continue
+        ordinary, special = repertoire(name)
+        ctx.count("encodings:special-chars", len(special))
+        if thorough:
+            chars = special + ordinary
+            pieces = ["".join(chars[i:i + 1500]) for i in range(0, len(chars), 1500)]
+        else:
+            sp = special if len(special) <= 60 else ctx.rng.sample(special, 60)
+            od = ordinary if len(ordinary) <= 60 else ctx.rng.sample(ordinary, 60)
+            pieces = ["".join(sp + od)]
+        for i, piece in enumerate(pieces):
+            text = "<p title='%s'>%s</p>" % (piece[:20].replace("'", ""), piece)
+            for j, kind in enumerate(("bytes", "BytesIO", "nonseekable")):
+                d = {"kind": kind, "enc": name, "bom": False, "via": "transport" if (i + j) % 2 else "override"}
+                if kind == "nonseekable":
+                    d["sizes"] = [[5, 1, 7], None, [1000]][i % 3]
+                if source_of(text, d) is None:
+                    ctx.fail("harness:encoding-sample-not-deliverable", "the sample text of an encoding does not round-trip "
+                             "through webencodings' own codec", {"text": text[:200], "delivery": d})
+                    continue
+                oracle_one(ctx, text, d, "etree", "encodings")
+
+
 def witness_case(ctx, w):
     oracle_one(ctx, w["text"], w["delivery"], w.get("treebuilder", "etree"), "witness")
 
@@ -757,6 +844,7 @@ def run(ctx):
     regressions(ctx)
     correspondence(ctx)
     oracle(ctx)
+    oracle_encodings(ctx)
 
 
 def replay(path):
